@@ -99,8 +99,8 @@ CLAIMS = {
         "per-iteration path counting (one name and one capture group per variable), registration-invariant dominance (group count == name count), who-may-write, value-pair provenance",
         "Decides for all accepted patterns: the i-th capture group corresponds to the i-th variable name (exactly one of each per loop "
         "iteration on every path; registration panics unless NumSubexp == len(names)), parameters reach the context only from the "
-        "match that selected the route, the cache stores and returns exactly the pair the miss path returned, static routes expose "
-        "none. It does not decide that the values equal the path substrings (run-time regexp behaviour).",
+        "match that selected the route, the cache stores and returns exactly the pair the miss path returned (and its index/list agree on keys), every route's "
+        "regexp is compiled from its own pattern (no table lookup), static routes expose none. It does not decide that the values equal the path substrings (run-time regexp behaviour).",
         "Trusted: regexp submatch indexing (documented); go/ssa.",
         "DESIGN.md 5 (C02)",
     ),
@@ -193,7 +193,8 @@ CLAIMS = {
         "status-argument dominance over body writes (fixpoint over helper wrappers), content-type constant table, who-may-set Content-Type, switch-arm exhaustiveness, error discipline",
         "Decides for all statuses and values: every helper records its own status argument before any body byte, uses its documented "
         "content-type constant, the renderers set Content-Type only when absent and before writing, every Accept arm naming a supported "
-        "type produces a response and the first supported type wins, render errors are never dropped. That bodies decode back to the "
+        "type produces a response and the first supported type wins, render errors are never dropped, pooled buffers are reset, and the "
+        "wrapper commits the recorded status before any body byte (C08 rules). That bodies decode back to the "
         "value is a codec property and NOT decided.",
         "Trusted: goutil httpctype constants; go/ssa and go/ast.",
         "DESIGN.md 5 (C19)",
@@ -202,8 +203,9 @@ CLAIMS = {
         "truth-table enumeration of CFG paths over four boolean atoms (16 valuations), guard/whitelist path rules for the method override, adapter argument provenance",
         "Decides the 'if and only if' of the Basic-auth gate for every header/account value at once (the code touches them only through "
         "the four atoms), the POST-only / {PUT,PATCH,DELETE}-only / recorded-original / delegate-once shape of the override handler, and "
-        "that the http.Handler adapters pass c.Resp and c.Req. It does not decide Request.BasicAuth parsing nor the n-ary wrapper order "
-        "of WrapHTTPHandlers (index arithmetic over a run-time length).",
+        "that the http.Handler adapters pass c.Resp and c.Req, that WrapHTTPHandlers never writes the caller's list and (for the "
+        "recognised fold shape list[len-1-i] over ascending i) nests the first listed wrapper outermost for every length. It does not "
+        "decide Request.BasicAuth parsing.",
         "Trusted: net/http BasicAuth; C05 for 'nothing downstream runs'; go/ssa.",
         "DESIGN.md 5 (C20)",
     ),
